@@ -16,7 +16,7 @@ for f in FILES:
     t = open(d + f).read()
     t = re.sub(r'^package gonum\n', '', t)
     t = re.sub(r'^import "gonum.org/v1/gonum/blas"\n', '', t, flags=re.M)
-    t = re.sub(r'^import \(\n(?:\t"[^"]+"\n)+\)\n', '', t, flags=re.M)
+    t = re.sub(r'^import \(\n(?:\t"[^"]+"\n|\n)+\)\n', '', t, flags=re.M)
     src += t
 
 # every identifier defined in the source files gets the suffix C
@@ -36,7 +36,7 @@ src = re.sub(r'verifSame\((real|imag)\((\w+)\), (real|imag)\((\w+)\)\)',
 src = re.sub(r'verifSame\((\w+), (\w+)\)', r'verifSame(float64(\1), float64(\2))', src)
 src = re.sub(r'return verifIteF\(x < 0, -x, x\)', 'return float32(verifIteF(x < 0, float64(-x), float64(x)))', src)
 src = src.replace('verifC01alphabeta()', 'verifC01alphabetaS()')   # float32 twin of the real (alpha, beta) split
-src = src.replace('math.Sqrt(', 'math32.Sqrt(')
+src = src.replace('math.MaxFloat64', 'math.MaxFloat32')
 # routine names
 src = src.replace('Zdscal', 'Csscal')
 src = src.replace('Dzasum', 'Scasum').replace('Dznrm2', 'Scnrm2').replace('Izamax', 'Icamax')
@@ -50,7 +50,11 @@ hdr = '''// Code generated from zz_verif_c01_z.go, zz_verif_c01_z2.go by gen_c.p
 
 package gonum
 
-import "gonum.org/v1/gonum/blas"
+import (
+	"math"
+
+	"gonum.org/v1/gonum/blas"
+)
 
 func verifC01eqC64(a, b complex64, msg string) { verifAssertEqC(complex128(a), complex128(b), msg) }
 '''
